@@ -814,7 +814,9 @@ class StmtMixin:
                 fors = [n_ for n_ in ast.walk(cur_fn) if isinstance(n_, ast.For)] if cur_fn is not None else []
                 fspecs = [k for k in specs if k.startswith("for ")]
                 it_txt_ = ast.unparse(node.iter)
-                if len(fors) == 1 and len(fspecs) == 1 and not any(k.endswith(" in " + it_txt_) for k in fspecs):
+                root_fors = [n_ for n_ in ast.walk(root) if isinstance(n_, ast.For)] if root is not None else []
+                own = cur_fn is root or not root_fors      # a callee's loop may only claim the specification when the function under contract has no loop of its own
+                if own and len(fors) == 1 and len(fspecs) == 1 and not any(k.endswith(" in " + it_txt_) for k in fspecs):
                     k = fspecs[0]
                     try:
                         old_t = ast.parse(k[4:k.index(" in ")], mode="eval").body
